@@ -127,6 +127,17 @@ def nan_walk(sw):
     return commits, starts
 
 
+def nan_stops_the_period(check, sw, rule, witness):
+    """shared with C11.R2 / C15.R3: a period whose error measure is NaN (overflowing iterates) is not committed"""
+    commits, _starts = nan_walk(sw)
+    test_txt = unparse(sw.loop.test)
+    check.saw(sw.f)
+    check.ob(rule, '%s::not-a-number-is-not-convergence(%s)' % (sw.f.key, sw.measure), not commits, sw.where(sw.loop_test),
+             ('stop test `%s`: with %s = NaN the loop ends as if converged and the period is committed (line(s) %s)'
+              % (test_txt, sw.measure, [c.line for c in commits])) if commits else
+             'with %s = NaN no commit is reachable (stop test `%s`)' % (sw.measure, test_txt), witness)
+
+
 def run(prog, check):
     check.explanation = EXPLANATION
     check.not_decided = ('the size of the residual at the reported values (numerical analysis of the damped Jacobi map); '
@@ -381,6 +392,21 @@ def run(prog, check):
     tol_src = [x for x in ast.walk(f.node) if isinstance(x, ast.Attribute) and x.attr in ('Err_Tolerance', 'ParameterErrorTolerance')]
     check.ob('C02.R6', '%s::tolerance-source' % f.key, len({x.attr for x in tol_src}) == 2, f.where,
              'stop tolerance = ParameterErrorTolerance if set, else the block\'s Err_Tolerance', 'any tolerance')
+    # ---- R7: the system that is solved is the submitted one --------------------------------------------------------------------
+    # with reduction on, aliases are substituted away before solving: the renamer the parser calls must rename whole name tokens
+    # only (the clause C13.R1 decides for that function), otherwise another equation is solved than the one submitted
+    from ..report import Borrowed
+    from . import C13 as _c13
+    P_ = prog.classes.get('EquationParser')
+    renamers_ = set()
+    for pm_ in (P_.methods.values() if P_ else []):
+        for c_ in ast.walk(pm_.node):
+            if isinstance(c_, ast.Call) and (call_name(c_) or '').startswith('replace_token'):
+                renamers_.add(call_name(c_))
+    if renamers_:
+        b13 = Borrowed(check, lambda rule, key: rule == 'C13.R1' and any(('::%s::' % r_) in key for r_ in renamers_), 'C02.R7',
+                       'inc = wage next to inc_tax = 0.2*inc: substituting inc must leave inc_tax alone')
+        _c13.run(prog, b13)
     check.floor('C02.R6', 2)
     check.floor('C02.R1', 2)
     check.floor('C02.R2', 4)
